@@ -191,10 +191,18 @@ func (w *WAL) Read() ([]types.Entry, error) {
 		// data length
 		var n int64
 		if err = binary.Read(reader, binary.LittleEndian, &n); err != nil {
+			if err == io.ErrUnexpectedEOF {
+				// torn tail: the process died while appending the last record
+				break
+			}
 			return nil, err
 		}
 
 		// data body
+		if n < 0 || n > int64(reader.Len()) {
+			// torn tail: the last record is incomplete, the log ends before it
+			break
+		}
 		data := make([]byte, n)
 		if err = binary.Read(reader, binary.LittleEndian, &data); err != nil {
 			return nil, err
